@@ -255,21 +255,29 @@ use crate::terms::Rng;
 const CONSTS: &[&str] = &["a", "b", "c", "1", "2", "3"];
 
 fn rand_arg(r: &mut Rng, vars: &[&str]) -> String {
-    match r.below(10) {
+    match r.below(12) {
         0 | 1 | 2 | 3 | 4 => vars[r.below(vars.len())].to_string(),
         5 | 6 | 7 => CONSTS[r.below(CONSTS.len())].to_string(),
         8 => format!("[{}, {}]", vars[r.below(vars.len())], vars[r.below(vars.len())]),
-        _ => format!("s({})", vars[r.below(vars.len())]),
+        9 => format!("s({})", vars[r.below(vars.len())]),
+        // the anonymous variable as an argument of a call (a clause index must not take it for a constant)
+        10 => "$_".to_string(),
+        _ => CONSTS[r.below(CONSTS.len())].to_string(),
     }
+}
+// a function term as an argument - only for the ground fact predicates: bound into a variable it would reach an answer, and
+// replace_variables panics on a function term ("Unknown unifiable": its contract, C08, is stated for plain terms)
+fn rand_fact_arg(r: &mut Rng, vars: &[&str]) -> String {
+    if r.below(6) == 0 { ["add(1, 1)", "subtract(3, 2)", "add(1, 2)", "multiply(1, 2)"][r.below(4)].to_string() } else { rand_arg(r, vars) }
 }
 fn rand_call(r: &mut Rng, level: usize, vars: &[&str]) -> String {
     // predicates below `level`: facts f0/1 g0/2 h0/1, rules r{k}a/1 r{k}b/2 for 1 <= k < level
     let k = r.below(level);
     if k == 0 {
         match r.below(5) {
-            0 => format!("f0({})", rand_arg(r, vars)),
-            1 => format!("g0({}, {})", rand_arg(r, vars), rand_arg(r, vars)),
-            2 => format!("h0({})", rand_arg(r, vars)),
+            0 => format!("f0({})", rand_fact_arg(r, vars)),
+            1 => format!("g0({}, {})", rand_fact_arg(r, vars), rand_fact_arg(r, vars)),
+            2 => format!("h0({})", rand_fact_arg(r, vars)),
             3 => format!("k0({}, {})", rand_arg(r, vars), rand_arg(r, vars)),
             _ => format!("w0({})", rand_arg(r, vars)),
         }
